@@ -11,6 +11,11 @@
 //                    + the long-double frequency response of impz() on a dense grid of the same band: |H(f) - (-i) e^{-2 pi i f M/2}| <= 1e-3
 //   Tuner            out[k] = x[k] exp(2 pi i f k / fs) for every stream index k:  |err| <= |x[k]| (1e-9 + 4 eps 2 pi |f| k / fs),
 //                    any framing (the framed run must be bit-identical to a one-call run of a second object)
+//   NEAR-INTEGER f   the constructor's integer / non-integer decision (only an exactly integral f may restart the phase counter every fs samples):
+//                    f = k + d, k in {0, +-1, +-7, +-(fs/2 - 1), +-fs/4, +-fs/2 (inwards), random}, d in {+-1 ulp of k, +-1e-12, +-1e-9, +-1e-7, +-5e-7,
+//                    +-1e-6, +-1e-5, +-1e-3}, fs in {8, 100, 1000, 8000} (thorough: + 9, 4099, random), streams of 3 .. 50 fs (small offsets at small
+//                    rates: up to 25000 fs, so that a lag of 2 pi d per period would exceed the bound many times), any framing, EVERY sample against
+//                    exp(2 pi i f k/fs) with f k/fs reduced exactly, same bound as above; + one 2^24 (thorough: 2^31) sample stream of this class.
 //   OBJECT LIFETIME copies of HilbertFilter / Tuner / Delay (copy-construction, copy-assignment over a live object, elements of vector(n, obj),
 //                    by-value lambda capture, copy of a copy, destroyed copy, self-assignment, moved copy, assignment from an own copy), taken
 //                    from a fresh prototype or mid-stream and then used INTERLEAVED with their source (all objects alive): every object must emit,
@@ -1026,6 +1031,133 @@ static void run_tuner(bool thorough, vh::Rng& rng) {
 }
 
 // =====================================================================================================
+//        Tuner at the integer / non-integer DECISION of the constructor (lesson 6: a boundary of the parameter space)
+// =====================================================================================================
+// f = k + d, k an integer number of cycles per fs samples, d a tiny offset: the phase counter may restart every fs samples for d == 0 ONLY.  Any
+// other d, however small, is a different frequency: restarting lags exp(2 pi i f k/fs) by 2 pi d per elapsed fs samples, so the streams run for many
+// multiples of fs (and for small fs long enough that 2 pi |d| * periods exceeds the tolerance by a wide margin whenever that is affordable); every
+// sample is compared with the definition, the cycle count f k / fs being reduced mod 1 exactly (cycles_exact).
+static const int NNI = 16;
+static const double NI_OFF[NNI] = {0, 0, 1e-12, -1e-12, 1e-9, -1e-9, 1e-7, -1e-7, 5e-7, -5e-7, 1e-6, -1e-6, 1e-5, -1e-5, 1e-3, -1e-3};
+static const char* NI_LAB[NNI] = {"plus_1ulp", "minus_1ulp", "plus_1e-12", "minus_1e-12", "plus_1e-9", "minus_1e-9", "plus_1e-7", "minus_1e-7",
+                                  "plus_5e-7", "minus_5e-7", "plus_1e-6", "minus_1e-6", "plus_1e-5", "minus_1e-5", "plus_1e-3", "minus_1e-3"};
+
+static std::string ni_json(int fs, int k, int di, double f, long long total, const std::vector<int>& lens, const char* input, long long idx, ld err, ld bound) {
+    std::ostringstream o;
+    o << "{\"op\":\"Tuner, f next to an integer\",\"fs\":" << fs << ",\"nearest_integer\":" << k << ",\"offset_class\":\"" << NI_LAB[di] << "\",\"offset\":" << vh::jnum(f - double(k))
+      << ",\"freq\":" << jval(f) << ",\"samples\":" << total << ",\"stream_in_units_of_fs\":" << vh::jnum(double(total) / fs) << ",\"input\":\"" << input << "\",\"frames\":";
+    if (lens.size() <= 12) o << vh::jints(lens); else o << "\"" << lens.size() << " frames\"";
+    o << ",\"index\":" << idx << ",\"periods_elapsed\":" << (idx >= 0 ? idx / fs : -1) << ",\"error\":" << vh::jnum((double)err) << ",\"bound\":" << vh::jnum((double)bound) << "}";
+    return o.str();
+}
+
+static void near_integer_case(int fs, int k, int di, int periods, int fmode, bool corr, int xk, double sc, vh::Rng& rng) {
+    const double f = di == 0 ? std::nextafter(double(k), 1e300) : di == 1 ? std::nextafter(double(k), -1e300) : double(k) + NI_OFF[di];
+    const int total = periods * fs + rng.range(1, std::max(2, fs / 2));
+    const uint64_t s = rng.next() % 1000000;
+    arr_cmplx x(total);
+    const char* input = corr ? "generated" : XKIND[xk];
+    if (corr) { for (int i = 0; i < total; ++i) x[i] = cmplx_t{gen_re(i, s), gen_im(i, s)}; }
+    else x = gen_cmplx_kind(rng, total, xk, sc);
+    const auto lens = tuner_frames(rng, total, fs, fmode);
+    vh::set_current("C14:tuner-crash", ni_json(fs, k, di, f, total, lens, input, -1, 0, 0));
+    vh::watch(300);
+    arr_cmplx y(total);
+    bool threw = false, size_bad = false;
+    try {
+        Tuner tn(fs, f);
+        int p = 0;
+        for (int l : lens) {
+            const arr_cmplx yy = tn.process(sub(x, p, l));
+            if (yy.size() != l) { size_bad = true; break; }
+            for (int i = 0; i < l; ++i) y[p + i] = yy[i];
+            p += l;
+        }
+    } catch (const std::exception&) { threw = true; }
+    vh::unwatch();
+    vh::clear_current();
+    ++out.n_oracle;
+    out.stat("tuner_near_integer_cases");
+    out.stat(std::string("tuner_near_integer_offset_") + NI_LAB[di]);
+    out.stat("tuner_near_integer_fs_" + std::to_string(fs));
+    out.stat(k == 0 ? "tuner_near_integer_k_zero" : std::abs(k) == fs / 2 ? "tuner_near_integer_k_at_band_edge" : k > 0 ? "tuner_near_integer_k_positive" : "tuner_near_integer_k_negative");
+    maxstat("tuner_near_integer_longest_stream_in_units_of_fs", total / fs);
+    if (threw) { out.fail("C14:tuner-rejects-admissible-f", ni_json(fs, k, di, f, total, lens, input, -1, 0, 0)); return; }   // every f of this class is inside the band
+    if (size_bad) { out.fail("C14:tuner-size", ni_json(fs, k, di, f, total, lens, input, -1, 0, 0)); return; }
+    // ---- every sample against the definition
+    long long wk;
+    ld wb;
+    const ld w = tuner_worst(fs, f, 0, x, y, wk, wb);
+    out.n_oracle += total;
+    worst("tuner_near_integer_f", w);
+    // what a restart of the counter every fs samples would have cost at the end of this stream, in units of the bound there (evidence that the
+    // class can see the defect: >> 1 for every offset down to 1e-9, and for 1e-12 at the small rates)
+    {
+        const ld drift = 2 * PIL * fabsl((ld)f - (ld)k) * (ld)(total / fs);
+        const ld b = 1e-9L + 4 * EPS * 2 * PIL * fabsl((ld)f) * (ld)total / (ld)fs;
+        if (drift / b > 4) out.stat(std::string("tuner_near_integer_restart_would_exceed_bound_4x_") + NI_LAB[di]);
+        maxstat(std::string("tuner_near_integer_restart_drift_over_bound_x1000_") + NI_LAB[di], (long long)std::min((ld)1e15, 1000 * drift / b));
+    }
+    if (!(w <= 1)) out.fail("C14:tuner-near-integer-f", ni_json(fs, k, di, f, total, lens, input, wk, w * wb, wb));
+    // ---- framing: a second object fed in one call must give the same bits
+    if (lens.size() > 1) {
+        Tuner t2(fs, f);
+        const arr_cmplx y1 = t2.process(x);
+        ++out.n_oracle;
+        for (int i = 0; i < total; ++i)
+            if (!same_bits(y1[i], y[i])) { out.fail("C14:tuner-framing", ni_json(fs, k, di, f, total, lens, input, i, 0, 0)); break; }
+    }
+    // ---- CORR (generated input, selected outputs: every period start / end + a stride)
+    if (corr) {
+        const int stride = total <= 2048 ? 1 : std::max(1, total / 1500);
+        std::string o;
+        long long cnt = 0;
+        for (int i = 0; i < total; ++i) if (tun_sel(i, total, fs, stride)) { o += " " + vh::hx(y[i].re) + " " + vh::hx(y[i].im); ++cnt; }
+        std::string lens_s = std::to_string(lens.size());
+        for (int l : lens) lens_s += " " + std::to_string(l);
+        out.corr("tun " + std::to_string(fs) + " " + vh::hx(f) + " " + std::to_string(s) + " " + std::to_string(stride) + " " + lens_s, std::to_string(cnt) + o);
+        out.stat("tuner_near_integer_corr_cases");
+    }
+}
+
+static void run_near_integer(bool thorough, vh::Rng& rng) {
+    std::vector<int> rates = {8, 100, 1000, 8000};
+    if (thorough) { rates.push_back(9); rates.push_back(4099); rates.push_back(rng.range(10, 3000)); }
+    long long corr_budget = thorough ? 90 : 18;
+    int c = int(g_seed);
+    for (int fs : rates) {
+        const int h = fs / 2, q = fs / 4;
+        std::vector<int> ks;
+        {
+            const int cand[] = {0, 1, -1, 7, -7, h - 1, -(h - 1), q, -q, h, -h, rng.range(2, std::max(2, h - 1)), -rng.range(2, std::max(2, h - 1))};
+            for (int k : cand) if (std::abs(k) <= h && std::find(ks.begin(), ks.end(), k) == ks.end()) ks.push_back(k);
+        }
+        // quick: a rotating subset (every offset class and every k is hit at every seed for the small rates), thorough: the full grid
+        const int mod = thorough ? 1 : fs <= 100 ? 3 : fs <= 1000 ? 5 : 17;
+        for (size_t ki = 0; ki < ks.size(); ++ki)
+            for (int di = 0; di < NNI; ++di, ++c) {
+                const int k = ks[ki];
+                const double f = di == 0 ? std::nextafter(double(k), 1e300) : di == 1 ? std::nextafter(double(k), -1e300) : double(k) + NI_OFF[di];
+                if (!(std::fabs(f) <= fs / 2.0)) continue;      // outside the band (k at the band edge, offset outwards): rejected, covered by run_tuner
+                if ((int(ki) * NNI + di + int(g_seed)) % mod != 0) continue;
+                // 3 .. 50 multiples of fs; for the smallest offsets as many periods as make a restart visible (2 pi |d| periods >= 5e-8), within a sample budget
+                int periods = fs >= 8000 && !thorough ? rng.range(3, 12) : rng.range(3, 50);
+                const double d = std::fabs(f - double(k));
+                if (d > 0 && d < 1e-8 && fs <= 1000) {
+                    const double need = std::ceil(5e-8 / (6.283185307179586 * d));
+                    const long long cap = (thorough ? 1000000LL : 200000LL) / fs;
+                    periods = int(std::max<double>(periods, std::min<double>(double(cap), need)));
+                }
+                const long long total = (long long)periods * fs;
+                bool corr = false;
+                if (corr_budget > 0 && total <= (thorough ? 120000 : 30000) && c % (thorough ? 5 : 4) == 0) { corr = true; --corr_budget; }
+                const int xk = (c % 2) ? (c / 2) % NXK : 0;
+                near_integer_case(fs, k, di, periods, c % 3, corr, xk, SCALES[c % NSC], rng);
+            }
+    }
+}
+
+// =====================================================================================================
 //        object lifetime: copies of stateful processors are independent objects carrying the copied state (lesson 2)
 // =====================================================================================================
 template<class P, class T, class U>
@@ -1711,6 +1843,14 @@ static void soak_plan(bool thorough, vh::Rng& rng) {
                 add("cross-2^24-frames-of-" + std::to_string(L) + "-residue-" + std::to_string(res), fs, f, P24 + 5 * L + 4200, 2, {P24}, L, res, P24);
             }
     }
+    // f next to an integer (the constructor's integer / non-integer decision, see run_near_integer): restarting the counter every fs samples would
+    // lag the definition by 2 pi d per period; small |k| keeps the phase-proportional part of the bound far below that.  (Added last, and the
+    // offset is taken from the seed, not from `rng`: the scenarios above keep their parameters.)
+    {
+        static const double D[] = {1e-9, -1e-7, 5e-7, -1e-12, 1e-6, -1e-9};
+        add("stream-2^24-f-next-to-an-integer", 8000, ((g_seed / 6) % 2 ? -7.0 : 7.0) + D[g_seed % 6], P24 + (1 << 18) + 99, 1, {P16, P24});
+        if (thorough) add("soak-2^31-f-next-to-an-integer-small-rate", 8, 1.0 + ((g_seed % 2) ? -1e-13 : 1e-13), P31 + (1 << 20) + 5, 0, {P16, P24, P31});
+    }
 }
 
 static void soak_start() {
@@ -1785,6 +1925,8 @@ int main(int argc, char** argv) {
     if (!only || std::strchr(only, 'l')) run_life(a.thorough, lrng);
     if (!only || std::strchr(only, 'e')) run_temporaries(a.thorough, lrng);
     if (!only || std::strchr(only, 'b')) run_large(a.thorough, lrng);
+    vh::Rng nrng(a.seed * 0x9e3779b97f4a7c15ULL + 14141414);   // own generator again
+    if (!only || std::strchr(only, 'n')) run_near_integer(a.thorough, nrng);
     if (!only || std::strchr(only, 's')) soak_finish();
     out.finish();
     return 0;
